@@ -519,6 +519,11 @@ def rule_no_hidden_state(ctx):
 
 RULES = [("writeset", rule_writeset), ("stack", rule_stack), ("multiset", rule_multiset), ("counter", rule_counter), ("ep-restore", rule_ep_restore),
          ("inverse-seq", rule_inverse_seq), ("probe-pair", rule_probe_pair), ("no-hidden-state", rule_no_hidden_state)]
+# the key is part of the position that unmake must restore: every make-side toggle has its unmake-side twin (C04 pairing
+# rules); and the record unmake reads the en-passant file back from must agree with the board from the first position on,
+# which for a position loaded from FEN is the synthetic record (C07.history)
+RULES += engine.premise_rules("c04", ["piece-pair", "turn-pair", "ep-pair", "castle-pair", "castle-revert"])
+RULES += engine.premise_rules("c07", ["history", "build"])
 
 
 def run(tier):
